@@ -384,6 +384,7 @@ func (r *reader) initNodes(tr io.Reader) error {
 			if ent.Type != "chunk" {
 				var id uint32
 				var b *bolt.Bucket
+				linkToParent := true // whether the parent directory counts a new link for this entry
 				if ent.Type == "hardlink" {
 					id, err = getIDByName(md, ent.LinkName, r.rootID)
 					if err != nil {
@@ -410,6 +411,11 @@ func (r *reader) initNodes(tr io.Reader) error {
 							}
 							found = true
 							ent.NumLink = readNumLink(b)
+							if md[id] != nil && md[id].implicit {
+								// This directory has been linked to the parent when it was created.
+								md[id].implicit = false
+								linkToParent = false
+							}
 						}
 					}
 					if !found {
@@ -437,7 +443,7 @@ func (r *reader) initNodes(tr io.Reader) error {
 				if err != nil {
 					return fmt.Errorf("failed to create parent directory %q of %q: %w", pdirName, ent.Name, err)
 				}
-				if err := setChild(md, pb, pid, path.Base(ent.Name), id, ent.Type == "dir"); err != nil {
+				if err := setChild(md, pb, pid, path.Base(ent.Name), id, ent.Type == "dir" && linkToParent); err != nil {
 					return err
 				}
 
@@ -605,6 +611,10 @@ func (r *reader) getOrCreateDir(nodes *bolt.Bucket, md map[uint32]*metadataEntry
 		if err := writeAttr(b, attr); err != nil {
 			return 0, nil, err
 		}
+		if md[id] == nil {
+			md[id] = &metadataEntry{}
+		}
+		md[id].implicit = true
 		if d != "" {
 			pid, pb, err := r.getOrCreateDir(nodes, md, parentDir(d), rootID)
 			if err != nil {
